@@ -1153,6 +1153,13 @@ class SVG:
             for el in self._iter_nested_svgs(svg)
         )
 
+        # allocate the clip id while the children (among them the clip paths generated
+        # for nested nested SVGs) are still part of the document, so that it is unique
+        overflow = svg.attrib.get("overflow", "hidden")
+        clip_id = None
+        if overflow == "hidden":
+            clip_id = self._new_id("nested-svg-viewport-%d")
+
         g = etree.Element(f"{{{svgns()}}}g")
         g.extend(svg)
 
@@ -1173,16 +1180,13 @@ class SVG:
         # non-root svg elements by default have overflow="hidden" which means a clip path
         # the size of the SVG viewport is applied; if overflow="visible" don't clip
         # https://www.w3.org/TR/SVG/render.html#OverflowAndClipProperties
-        overflow = svg.attrib.get("overflow", "hidden")
         if overflow == "visible":
             return (g,)
 
         if overflow != "hidden":
             raise NotImplementedError(f"overflow='{overflow}' is not supported")
 
-        clip_path = etree.Element(
-            f"{{{svgns()}}}clipPath", {"id": self._new_id("nested-svg-viewport-%d")}
-        )
+        clip_path = etree.Element(f"{{{svgns()}}}clipPath", {"id": clip_id})
         clip_path.append(to_element(SVGRect(x=x, y=y, width=width, height=height)))
         clipped_g = etree.Element(f"{{{svgns()}}}g")
         clipped_g.attrib["clip-path"] = f"url(#{clip_path.attrib['id']})"
